@@ -70,6 +70,9 @@ def havoc_locations(eng, st, locs):
             cur = eng.heap_arr(st, f)
             if isinstance(cur, tuple):
                 st = st.setheap(f, tuple(fresh("hv_" + f, a.sort()) for a in cur))
+                ka = st.heap[f][0]
+                x = z3.Const(fresh_name("kx"), Ref)
+                st = st.assume(FA([x], z3.And(ka[x] >= -1, ka[x] <= 1), patterns=[ka[x]]))
             else:
                 st = st.setheap(f, fresh("hv_" + f, cur.sort()))
         elif kind == "attr":
